@@ -100,7 +100,7 @@ func runProgram(c *vkit.Ctx, idx int, op Opaque, minimiseLeft *int, single bool)
 			}
 			sig, nontrivial := signature(res, rec)
 			if nontrivial {
-				c.Nontrivial(sig)
+				c.Nontrivial(vkit.Hash(sig)) // hashed: millions of them are held in memory
 			}
 			for _, t := range res.Trace {
 				if strings.HasPrefix(t, "truncate:cut") || strings.HasPrefix(t, "extract") || strings.HasPrefix(t, "drop:sampled") {
@@ -441,7 +441,7 @@ func main() {
 	matchEngine(c, op)
 
 	// --- programs, in children
-	nProg := c.N(2000, 100000)
+	nProg := c.N(6000, 300000)
 	par := runtime.NumCPU()
 	if par > 12 {
 		par = 12
